@@ -874,7 +874,7 @@ func genC29(c *hlib.Ctx) {
 	}
 	sets := c.N(6, 25)
 	if c.Tier == "search" {
-		sets = 9
+		sets = 6
 	}
 	for i := 0; i < sets; i++ {
 		sc := genScenario(c, i)
